@@ -35,6 +35,11 @@ Remaining hypotheses (all explicit):
 * in the success branch: the result is at most `maxDepth` deep (`Marshal` has no depth limit, the
   reference parser and the real `Unmarshal` have one at 10000; the statement is false without it:
   repeated `copy` of the root below itself doubles the depth).
+
+Since the RFC 6901 repair (D20) the specification decides pointers that do not start with `/`
+(failure; for `move` / `copy` to such a pointer the failure of the source half is reported).  The
+statements below are unchanged and cover these inputs: no hypothesis on the shape of the pointers
+is needed (see the closed instances `exRun` at the end).
 -/
 
 namespace JP
@@ -437,6 +442,29 @@ example :
       | some sops =>
         simp only [h1, h2, h3, Bool.and_eq_true] at h
         exact ⟨c, ops, sops, rfl, h.1.1.1, rfl, rfl, h.1.1.2, h.1.2, h.2⟩
+
+/-- `{"a":{"x":"<"},"k":[1,2]}` -/
+def exDocR : Bytes := ascii "{\"a\":{\"x\":\"<\"},\"k\":[1,2]}"
+
+/-- what `apply_bytes_refines` says about one patch text on `exDocR`, as a Boolean: the
+specification succeeds and the model's output parses to its result (`true`), or the specification
+fails and the model returns an error (`false`) -/
+def exRun (p : String) : Option Bool :=
+  match parseCst exDocR, Impl.decodePatch (ascii p), specPatch (ascii p) with
+  | some c, .ok ops, some sops =>
+    match Spec.apply (specOpts {}) (fun _ => 0) c.valueOf sops, Impl.applyBytes {} [] exDocR ops with
+    | .ok v, .ok out => (parseValueOf out).bind fun w => if Value.beq w v then some true else none
+    | .fail _ _, .err _ => some false
+    | _, _ => none
+  | _, _, _ => none
+
+/-- pointers that do not start with `/` (D20) are inside the theorem's domain: failures of the
+specification and errors of the model, whatever the operation -/
+example : exRun "[{\"op\":\"remove\",\"path\":\"a\"}]" = some false ∧
+    exRun "[{\"op\":\"test\",\"path\":\"k\",\"value\":0}]" = some false ∧
+    exRun "[{\"op\":\"add\",\"path\":\"k/0\",\"value\":0}]" = some false ∧
+    exRun "[{\"op\":\"move\",\"from\":\"k/0\",\"path\":\"/a/y\"}]" = some false ∧
+    exRun "[{\"op\":\"copy\",\"from\":\"/k/7\",\"path\":\"a\"}]" = some false := by decide +kernel
 
 end Examples
 
